@@ -3,7 +3,7 @@
    vm_compute on generated data) and followed by [Print Assumptions].
    Model: Model/C15.v   Lemmas: Proofs/C15.v   Generated data: Generated/C15JumpTable.v *)
 From Coq Require Import List NArith Bool String.
-From GQ Require Import Lib.C15_Row Lib.C15_Wire Generated.C15JumpTable Model.C15 Proofs.C15 Proofs.C15_Wire.
+From GQ Require Import Lib.C15_Row Lib.C15_Wire Lib.C15_Window Generated.C15JumpTable Model.C15 Proofs.C15 Proofs.C15_Wire Proofs.C15_Window.
 Import ListNotations.
 Local Open Scope N_scope.
 
@@ -210,6 +210,55 @@ Theorem coinbase_pipeline_alloc_linear : forall tx s hsh,
 Proof. exact coinbase_pipeline_alloc_linear_lemma. Qed.
 Print Assumptions coinbase_pipeline_alloc_linear.
 
+(* ---------- totality of an instruction body: the RETURNDATACOPY window (Lib/C15_Window.v) ---------- *)
+
+(* every window the bounds check lets through is the requested one and a valid slice of the return data
+   (returnData[lo:hi] cannot panic), for ANY dataOffset, any uint64 length, any buffer length *)
+Theorem rdc_window_in_bounds : forall off len ret lo hi,
+  len < W64 ->
+  rdc_window off len ret = Some (lo, hi) ->
+  lo = off /\ hi = off + len /\ slice_ok ret lo hi = true.
+Proof. exact rdc_window_in_bounds_lemma. Qed.
+Print Assumptions rdc_window_in_bounds.
+
+(* the check is exact: it refuses iff dataOffset + length exceeds len(returnData) *)
+Theorem rdc_window_exact : forall off len ret,
+  len < W64 -> ret < W64 ->
+  rdc_window off len ret = if off + len <=? ret then Some (off, off + len) else None.
+Proof. exact rdc_window_exact_lemma. Qed.
+Print Assumptions rdc_window_exact.
+
+(* the end of the window computed in machine words (offset64 + length64, no overflow term) is NOT a sound check:
+   dataOffset = 2^64-1, length = 2 on 32 bytes of return data passes with the inverted window [2^64-1 : 1],
+   which the 256-bit check refuses *)
+Theorem rdc_window_u64_refuted :
+  exists off len ret lo hi,
+    off < W64 /\ len < W64 /\ ret < W64 /\
+    rdc_window_u64 off len ret = Some (lo, hi) /\ slice_ok ret lo hi = false /\
+    rdc_window off len ret = None.
+Proof. exact rdc_window_u64_unsound_lemma. Qed.
+Print Assumptions rdc_window_u64_refuted.
+
+(* the full statement "for all 256-bit dataOffset, length" is FALSE for the body alone (the 256-bit sum wraps for
+   length = 2^256-2^64+2); the hypothesis len < 2^64 above is discharged by the charge phase: *)
+Theorem rdc_window_body_alone_refuted :
+  exists off len ret lo hi,
+    off < W256 /\ len < W256 /\ rdc_window off len ret = Some (lo, hi) /\ slice_ok ret lo hi = false.
+Proof. exact rdc_window_body_alone_lemma. Qed.
+Print Assumptions rdc_window_body_alone_refuted.
+
+(* a row with a memorySize function whose size computation overflows (calcMemSize64: length not a uint64) never
+   reaches operation.execute *)
+Theorem overflowing_request_never_executes : forall T op r a s,
+  lookup T op = Some r -> r_has_mem r = true -> a_req a = None -> fst (step T op a s) <> VOk.
+Proof. exact overflowing_request_refused_lemma. Qed.
+Print Assumptions overflowing_request_never_executes.
+
+(* OBLIGATION on generated data: both fork tables have a RETURNDATACOPY row, with memorySize and dynamicGas *)
+Theorem returndatacopy_guarded_by_charge_phase : forallb rdc_rows_guarded fork_tables = true.
+Proof. vm_compute. reflexivity. Qed.
+Print Assumptions returndatacopy_guarded_by_charge_phase.
+
 (* ---------- non-vacuity ---------- *)
 
 (* a metered table with memory opcodes exists (the generated one minus ETX) and a real program
@@ -249,3 +298,8 @@ Example script_sig_nonvacuous :
   extract_script_sig (repeat 0 4 ++ [1] ++ repeat 0 36 ++ [253; 255; 255] ++ [1; 2; 3]) = None /\
   extract_script_sig (repeat 0 4 ++ [1] ++ repeat 0 36 ++ [3] ++ [7; 8; 9] ++ [255; 255]) = Some [7; 8; 9].
 Proof. split; vm_compute; reflexivity. Qed.
+
+(* a window inside the return data is granted, one byte beyond it is refused *)
+Example rdc_window_nonvacuous :
+  rdc_window 4 28 32 = Some (4, 32) /\ rdc_window 4 29 32 = None /\ rdc_window (W64 - 1) 2 32 = None.
+Proof. repeat split; vm_compute; reflexivity. Qed.
